@@ -23,7 +23,9 @@ The two references are written independently (AST interpreter / indentation auto
 read by the automaton and a disagreement between the two is a harness error.
 
 Not demanded (left out of the alphabets / not compared):
-  * `@case` after `@else` of the same block ("@else is at the very end"; the statement does not say it must fail);
+  * `@case` after `@else` of the same block ("@else is at the very end"; the statement does not say it must fail):
+    whether it is legal and what it selects is not judged, effects of such sequences are not compared - but they are
+    extended, and a second @else of that block must still raise;
   * a misplaced @else/@end *inside a clause that is not selected* (the statement does not say skipped text is
     validated) - executed, counted, never compared, never extended;
   * names produced by oddly indented flat sequences (E1 compares only *which* node lines took effect; naming is C13);
@@ -304,6 +306,9 @@ def _run_e2(desc, sh):
             if w.nblocks >= 2 and w.skipped_lines and len(w.lines) == n and len(sh.samples) < 1 and n >= 5:
                 sh.sample(dict(text=G.text_of(w.lines), expected=w.data))
             sh.add_extra("e2_programs_%d_lines" % n, 1)
+            for feat in ("unit-directive", "property-line-after-block"):
+                if feat in w.feat:
+                    sh.add_extra("e2_programs_with_" + feat, 1)
             sh.add_extra("e2_lines_skipped_by_reference", w.skipped_lines)
             sh.add_extra("e2_lines_effective_by_reference", w.effective_lines)
     if leaks:
@@ -317,6 +322,8 @@ def _check_flat(seq, sh=None):
     got = _run_flat(seq)
     if sh is not None:
         sh.count("flat:ref=%s impl=%s" % (verdict, "ok" if got[0] == "ok" else "err"))
+        if verdict == "must-raise":
+            sh.count("flat:must-raise:" + info)
     rec = None
     case = dict(kind="flat", seq=[list(x) for x in seq], text=G.flat_text(seq))
     if verdict == "ok":
@@ -336,9 +343,9 @@ def _check_flat(seq, sh=None):
         if got[0] == "ok":
             rec = failure("flat", case, "parse() raises (%s)" % info, dict(effective_lines=got[1][0]),
                           tags=["misplaced-keyword", info], behaviour="misplaced-keyword-accepted")
-    terminal = verdict != "ok" or got[0] != "ok"
+    terminal = verdict not in ("ok", "unjudged") or got[0] != "ok"
     if got[0] == "ok":
-        key = (got[1][1], rstate if verdict == "ok" else verdict)
+        key = (got[1][1], (verdict, rstate) if not terminal else verdict)
     else:
         key = ("error", got[1], verdict)
     return terminal, key, rec
@@ -431,10 +438,15 @@ def finish(total, tier, seed):
     b = BOUNDS[tier]
     h = total.hist
     total.states = len(total.sets.get("states", ()))
-    need = ["flat:ref=ok impl=ok", "flat:ref=must-raise impl=err", "tree:ok"]
+    need = ["flat:ref=ok impl=ok", "flat:ref=must-raise impl=err", "tree:ok",
+            "flat:must-raise:second-else-after-case", "flat:must-raise:else-after-else",
+            "flat:must-raise:else-without-open-block-at-level", "flat:must-raise:end-without-open-block-at-level"]
     missing = [k for k in need if not h.get(k)]
     if missing:
         raise HarnessError("vacuous run, outcome classes never seen: %s" % missing)
+    for feat in ("unit-directive", "property-line-after-block"):
+        if not total.extra.get("e2_programs_with_" + feat):
+            raise HarnessError("vacuous run: no program with feature %s" % feat)
     if not total.extra.get("e2_lines_skipped_by_reference") or not total.extra.get("e2_lines_effective_by_reference"):
         raise HarnessError("vacuous run: the reference never skipped / never accepted a line")
     want = {k + 1 for _, ks in b["off"] for k in ks}
@@ -452,7 +464,8 @@ def finish(total, tier, seed):
 
 MANIFEST = dict(
     text="Bounded-exhaustive check of clause selection on the real DIP.parse(). E2: every well-formed block-structured "
-         "program (definitions, reference-valued definitions, modifications, property lines, groups in both name "
+         "program (definitions, reference-valued definitions, modifications, property lines - also as the first line "
+         "after a block nested among a node's properties -, $unit directives followed by a node using the unit, groups in both name "
          "orders, @case/@else/@end blocks nested up to 3 deep with up to 3 clauses, closed by @end or by indentation "
          "incl. several levels at once, empty clauses, every truth assignment incl. conditions that depend on earlier "
          "clauses) with <= 5 lines in the full alphabet and 6 lines in the static alphabet (thorough: 6 and 7) is "
@@ -462,7 +475,8 @@ MANIFEST = dict(
          "also 97..103 for <= 4 lines). E1: every flat "
          "sequence over {node,@case true,@case false,@else,@end} x indent {0,1,2} up to depth 5 (thorough 6), unpruned, "
          "is executed and compared with a reference automaton: well-formed -> same lines in effect, misplaced "
-         "@else/@end (no open block at that indentation, second @else, after @end) -> parse() must raise.",
+         "@else/@end (no open block at that indentation, second @else of a block - also after an intervening @case -, after "
+         "@end) -> parse() must raise.",
     note="Trusted: generator, AST interpreter and indentation automaton in mc/refmodels/dip_gen_b.py (they never parse "
          "DIP text and are cross-checked against each other on every program). Not covered: @case after @else, "
          "misplaced keywords inside unselected clauses, compact clause names (group.@case), programs beyond the "
